@@ -1,6 +1,479 @@
-//! C36: not implemented yet.
+//! C36: time-stamp tokens are used only when they match the signature.
+//!
+//! A scripted signer presents any credential (through the add-only hook `cose_sign::verif_cose_sign_unchecked`,
+//! shared with C05/C06, so that expired / not-yet-valid credentials reach the validator), answers
+//! `send_timestamp_request` with a token minted on the spot (the message depends on the fresh signature) either by
+//! a local `openssl ts -reply` TSA or by a small DER builder signing with `openssl dgst -sign` (full control over
+//! genTime, signed attributes, imprint, embedded certificates), and staples `ocsp_val` (used by C37).
+//!
+//! case: { cred:{chain:[pem..], key:pem, alg}, anchors:pem, claim_v:1|2, verify_timestamp_trust:bool,
+//!         token: null | {mode:"openssl"|"craft", tsa:{cert:pem, chain:[pem..], key:pem}, msg:"right"|"other",
+//!                        corrupt:"none"|"sig"|"imprint"|"tstinfo"|"truncate",
+//!                        // craft only:
+//!                        gen_time:"YYYYMMDDhhmmssZ", signing_time_attr:null|"YYMMDDhhmmssZ", accuracy:null|secs,
+//!                        attrs:bool, hash:"sha256"|"sha384"|"sha512", embed:"all"|"leaf"|"chain_only"|"none",
+//!                        sid_issuer:hex, sid_serial:hex (DER INTEGER), tsa_chain_der:[hex..], tsa_der:hex,
+//!                        sign_key: pem | null (default tsa.key), tokens: n (default 1) },
+//!         ocsp: hex | null }
+//! out:  { r:"ok", state, failure, success, informational, sig_time, revocation_status, ts_msg_len, now } | { r:"err", stage, kind }
+use std::{
+    io::Cursor,
+    path::{Path, PathBuf},
+    process::Command,
+    sync::{
+        atomic::{AtomicUsize, Ordering},
+        Mutex,
+    },
+};
+
+use c2pa::{Signer, SigningAlg};
 use serde_json::{json, Value};
 
-pub fn run(_case: &Value) -> Value {
-    json!({"r": "unimplemented"})
+use crate::{e2e, util::*};
+
+pub const OPENSSL_DEFAULT: &str = "/root/miniconda/bin/openssl";
+const WORK: &str = "/verif/.build/c36/tmp";
+
+fn openssl() -> String {
+    std::env::var("VERIF_OPENSSL").unwrap_or_else(|_| OPENSSL_DEFAULT.to_string())
+}
+
+// ------------------------------------------------------------------------------------------------ DER
+
+pub fn tlv(tag: u8, content: &[u8]) -> Vec<u8> {
+    let n = content.len();
+    let mut out = vec![tag];
+    if n < 0x80 {
+        out.push(n as u8);
+    } else {
+        let b: Vec<u8> = n.to_be_bytes().iter().copied().skip_while(|x| *x == 0).collect();
+        out.push(0x80 | b.len() as u8);
+        out.extend(b);
+    }
+    out.extend_from_slice(content);
+    out
+}
+
+pub fn cat(parts: &[Vec<u8>]) -> Vec<u8> {
+    parts.iter().flat_map(|p| p.iter().copied()).collect()
+}
+
+pub fn seq(parts: &[Vec<u8>]) -> Vec<u8> {
+    tlv(0x30, &cat(parts))
+}
+
+pub fn oid(dotted: &str) -> Vec<u8> {
+    let arcs: Vec<u64> = dotted.split('.').map(|a| a.parse().expect("oid arc")).collect();
+    let mut c = vec![(arcs[0] * 40 + arcs[1]) as u8];
+    for a in &arcs[2..] {
+        let mut tmp = vec![(a & 0x7f) as u8];
+        let mut v = a >> 7;
+        while v > 0 {
+            tmp.push(0x80 | (v & 0x7f) as u8);
+            v >>= 7;
+        }
+        tmp.reverse();
+        c.extend(tmp);
+    }
+    tlv(0x06, &c)
+}
+
+pub fn int(n: u64) -> Vec<u8> {
+    let mut b: Vec<u8> = n.to_be_bytes().iter().copied().skip_while(|x| *x == 0).collect();
+    if b.is_empty() || b[0] & 0x80 != 0 {
+        b.insert(0, 0);
+    }
+    tlv(0x02, &b)
+}
+
+fn alg_id(o: &str, with_null: bool) -> Vec<u8> {
+    if with_null {
+        seq(&[oid(o), vec![0x05, 0x00]])
+    } else {
+        seq(&[oid(o)])
+    }
+}
+
+fn digest(alg: &str, data: &[u8]) -> Vec<u8> {
+    c2pa::hash_stream_by_alg(alg, &mut Cursor::new(data.to_vec()), None, true).expect("hash")
+}
+
+fn hash_oid(alg: &str) -> &'static str {
+    match alg {
+        "sha384" => "2.16.840.1.101.3.4.2.2",
+        "sha512" => "2.16.840.1.101.3.4.2.3",
+        _ => "2.16.840.1.101.3.4.2.1",
+    }
+}
+
+// ------------------------------------------------------------------------------------------------ work directory
+
+static COUNTER: AtomicUsize = AtomicUsize::new(0);
+
+pub struct WorkDir(pub PathBuf);
+
+impl WorkDir {
+    pub fn new() -> Self {
+        let n = COUNTER.fetch_add(1, Ordering::SeqCst);
+        let p = Path::new(WORK).join(format!("{}-{}", std::process::id(), n));
+        std::fs::create_dir_all(&p).expect("workdir");
+        WorkDir(p)
+    }
+    pub fn file(&self, name: &str, content: &[u8]) -> PathBuf {
+        let p = self.0.join(name);
+        std::fs::write(&p, content).expect("write");
+        p
+    }
+}
+
+impl Drop for WorkDir {
+    fn drop(&mut self) {
+        let _ = std::fs::remove_dir_all(&self.0);
+    }
+}
+
+fn run_openssl(dir: &Path, args: &[&str]) -> Result<(), String> {
+    let out = Command::new(openssl()).args(args).current_dir(dir).env("OPENSSL_CONF", "/dev/null").output().map_err(|e| e.to_string())?;
+    if out.status.success() {
+        Ok(())
+    } else {
+        Err(format!("openssl {:?}: {}", args.first(), String::from_utf8_lossy(&out.stderr).chars().take(300).collect::<String>()))
+    }
+}
+
+// ------------------------------------------------------------------------------------------------ token minting
+
+/// TimeStampResp from a local `openssl ts -reply` TSA, for the DER request `query`.
+fn mint_openssl(tok: &Value, query: &[u8]) -> Result<Vec<u8>, String> {
+    let wd = WorkDir::new();
+    let tsa = &tok["tsa"];
+    wd.file("tsa.pem", tsa["cert"].as_str().unwrap_or("").as_bytes());
+    wd.file("tsa.key", tsa["key"].as_str().unwrap_or("").as_bytes());
+    let chain: String = tsa["chain"].as_array().map(|a| a.iter().filter_map(|x| x.as_str()).collect::<Vec<_>>().join("\n")).unwrap_or_default();
+    wd.file("chain.pem", chain.as_bytes());
+    wd.file("serial", b"1000\n");
+    wd.file("q.tsq", query);
+    let cnf = format!(
+        "[ tsa ]\ndefault_tsa = t\n[ t ]\ndir = .\nserial = ./serial\ncrypto_device = builtin\nsigner_cert = ./tsa.pem\n{}signer_key = ./tsa.key\n\
+         signer_digest = sha256\ndefault_policy = 1.2.3.4.1\nother_policies = 1.2.3.4.5\ndigests = sha1, sha256, sha384, sha512\naccuracy = secs:1\nordering = no\n\
+         tsa_name = no\ness_cert_id_chain = no\ness_cert_id_alg = sha256\n",
+        if chain.trim().is_empty() { "" } else { "certs = ./chain.pem\n" }
+    );
+    wd.file("tsa.cnf", cnf.as_bytes());
+    run_openssl(&wd.0, &["ts", "-reply", "-config", "tsa.cnf", "-queryfile", "q.tsq", "-out", "r.tsr"])?;
+    std::fs::read(wd.0.join("r.tsr")).map_err(|e| e.to_string())
+}
+
+fn sign_with_key(key_pem: &str, tbs: &[u8]) -> Result<Vec<u8>, String> {
+    let wd = WorkDir::new();
+    wd.file("k.pem", key_pem.as_bytes());
+    wd.file("tbs.bin", tbs);
+    run_openssl(&wd.0, &["dgst", "-sha256", "-sign", "k.pem", "-out", "sig.bin", "tbs.bin"])?;
+    std::fs::read(wd.0.join("sig.bin")).map_err(|e| e.to_string())
+}
+
+/// TimeStampResp built field by field; the CMS signature is made with `openssl dgst -sha256 -sign`.
+fn mint_craft(tok: &Value, message: &[u8]) -> Result<Vec<u8>, String> {
+    let hash = tok["hash"].as_str().unwrap_or("sha256");
+    let mut imprint = digest(hash, message);
+    if tok["corrupt"] == "imprint" {
+        imprint[0] ^= 0x01;
+    }
+    let gen_time = tok["gen_time"].as_str().unwrap_or("20240601120000Z");
+    let mut tst_parts = vec![
+        int(1),
+        oid("1.2.3.4.1"),
+        seq(&[alg_id(hash_oid(hash), true), tlv(0x04, &imprint)]),
+        int(tok["serial"].as_u64().unwrap_or(4097)),
+        tlv(0x18, gen_time.as_bytes()),
+    ];
+    if let Some(a) = tok["accuracy"].as_u64() {
+        tst_parts.push(seq(&[int(a)]));
+    }
+    let tst_info = seq(&tst_parts);
+    let tst_oid = "1.2.840.113549.1.9.16.1.4";
+    let with_attrs = tok["attrs"].as_bool().unwrap_or(true);
+    let (attrs_field, tbs) = if with_attrs {
+        let mut attrs = vec![
+            seq(&[oid("1.2.840.113549.1.9.3"), tlv(0x31, &oid(tst_oid))]),
+            seq(&[oid("1.2.840.113549.1.9.4"), tlv(0x31, &tlv(0x04, &digest("sha256", &tst_info)))]),
+        ];
+        if let Some(st) = tok["signing_time_attr"].as_str() {
+            let t = if st.len() == 13 { tlv(0x17, st.as_bytes()) } else { tlv(0x18, st.as_bytes()) };
+            attrs.push(seq(&[oid("1.2.840.113549.1.9.5"), tlv(0x31, &t)]));
+        }
+        attrs.sort(); // DER SET OF: ascending encodings
+        let body = cat(&attrs);
+        (tlv(0xA0, &body), tlv(0x31, &body))
+    } else {
+        (vec![], tst_info.clone())
+    };
+    let tsa = &tok["tsa"];
+    let key = tok["sign_key"].as_str().or(tsa["key"].as_str()).unwrap_or("");
+    let mut sig = sign_with_key(key, &tbs)?;
+    if tok["corrupt"] == "sig" {
+        let n = sig.len();
+        sig[n - 1] ^= 0x01;
+    }
+    // what the verifier will see as eContent (possibly altered after signing)
+    let mut content = tst_info.clone();
+    if tok["corrupt"] == "tstinfo" {
+        // change the last digit of the seconds of genTime after the signature was made
+        if let Some(p) = content.windows(gen_time.len()).position(|w| w == gen_time.as_bytes()) {
+            let q = p + gen_time.len() - 2;
+            content[q] = if content[q] == b'0' { b'1' } else { b'0' };
+        }
+    }
+    let tsa_der = hexd(&tok["tsa_der"]);
+    let chain_der: Vec<Vec<u8>> = tok["tsa_chain_der"].as_array().map(|a| a.iter().map(hexd).collect()).unwrap_or_default();
+    let certs: Vec<Vec<u8>> = match tok["embed"].as_str().unwrap_or("all") {
+        "leaf" => vec![tsa_der.clone()],
+        "chain_only" => chain_der.clone(),
+        "none" => vec![],
+        _ => std::iter::once(tsa_der.clone()).chain(chain_der.iter().cloned()).collect(),
+    };
+    let key_is_ec = tok["tsa_key_kind"].as_str().unwrap_or("rsa") == "ec";
+    let sig_alg = if key_is_ec { alg_id("1.2.840.10045.4.3.2", false) } else { alg_id("1.2.840.113549.1.1.1", true) };
+    let mut si = vec![int(1), seq(&[hexd(&tok["sid_issuer"]), hexd(&tok["sid_serial"])]), alg_id(hash_oid("sha256"), true)];
+    if with_attrs {
+        si.push(attrs_field);
+    }
+    si.push(sig_alg);
+    si.push(tlv(0x04, &sig));
+    let mut sd = vec![int(3), tlv(0x31, &alg_id(hash_oid("sha256"), true)), seq(&[oid(tst_oid), tlv(0xA0, &tlv(0x04, &content))])];
+    if tok["embed"].as_str().unwrap_or("all") != "none" {
+        sd.push(tlv(0xA0, &cat(&certs)));
+    }
+    sd.push(tlv(0x31, &seq(&si)));
+    let token = seq(&[oid("1.2.840.113549.1.7.2"), tlv(0xA0, &seq(&sd))]);
+    Ok(seq(&[seq(&[int(0)]), token]))
+}
+
+// ------------------------------------------------------------------------------------------------ the signer
+
+/// Raw half: signs with the key, presents `chain`, mints the time-stamp token, staples `ocsp`.
+pub struct ScriptedSigner {
+    inner: c2pa::BoxedSigner,
+    chain: Vec<Vec<u8>>,
+    pub token: Value,
+    pub ocsp: Option<Vec<u8>>,
+    pub v2: bool,
+    pub reserve: usize,
+    pub seen: Mutex<Vec<String>>,
+}
+
+impl ScriptedSigner {
+    pub fn new(cred: &Value, token: Value, ocsp: Option<Vec<u8>>, v2: bool) -> c2pa::Result<Self> {
+        let chain_pem: String = cred["chain"].as_array().map(|a| a.iter().filter_map(|p| p.as_str()).collect::<Vec<_>>().join("\n")).unwrap_or_default();
+        let inner = c2pa::create_signer::from_keys(chain_pem.as_bytes(), cred["key"].as_str().unwrap_or("").as_bytes(), e2e::alg_of(cred["alg"].as_str().unwrap_or("es256")), None)?;
+        let chain = inner.certs()?;
+        Ok(ScriptedSigner { inner, chain, token, ocsp, v2, reserve: 20000, seen: Mutex::new(vec![]) })
+    }
+
+    fn note(&self, s: String) {
+        if let Ok(mut g) = self.seen.lock() {
+            g.push(s);
+        }
+    }
+
+    fn mint(&self, message: &[u8]) -> Result<Vec<u8>, String> {
+        let tok = &self.token;
+        let mut msg = message.to_vec();
+        if tok["msg"] == "other" {
+            msg.push(0x5a);
+        }
+        let mut resp = if tok["mode"] == "openssl" {
+            let q = self.timestamp_request_body(&msg).map_err(|e| e.to_string())?;
+            mint_openssl(tok, &q)?
+        } else {
+            mint_craft(tok, &msg)?
+        };
+        if tok["mode"] == "openssl" {
+            match tok["corrupt"].as_str().unwrap_or("none") {
+                "sig" => {
+                    let n = resp.len();
+                    resp[n - 1] ^= 0x01; // the signature value is the last field of the only SignerInfo
+                }
+                "imprint" | "tstinfo" => {
+                    let d = digest("sha256", &msg);
+                    if let Some(p) = resp.windows(d.len()).position(|w| w == d.as_slice()) {
+                        resp[p] ^= 0x01; // alters the signed TSTInfo after the fact
+                    }
+                }
+                _ => {}
+            }
+        }
+        if tok["corrupt"] == "truncate" {
+            let n = resp.len();
+            resp.truncate(n - 7);
+        }
+        Ok(resp)
+    }
+
+    pub fn cose(&self, data: &[u8]) -> c2pa::Result<Vec<u8>> {
+        c2pa::cose_sign::verif_cose_sign_unchecked(self, data, self.reserve_size(), self.v2)
+    }
+}
+
+impl Signer for ScriptedSigner {
+    fn sign(&self, data: &[u8]) -> c2pa::Result<Vec<u8>> {
+        self.inner.sign(data)
+    }
+    fn alg(&self) -> SigningAlg {
+        self.inner.alg()
+    }
+    fn certs(&self) -> c2pa::Result<Vec<Vec<u8>>> {
+        Ok(self.chain.clone())
+    }
+    fn reserve_size(&self) -> usize {
+        self.reserve + self.chain.iter().map(|c| c.len()).sum::<usize>() + self.ocsp.as_ref().map_or(0, |o| o.len())
+    }
+    fn send_timestamp_request(&self, message: &[u8]) -> Option<c2pa::Result<Vec<u8>>> {
+        if self.token.is_null() {
+            return None;
+        }
+        self.note(format!("ts:{}", message.len()));
+        Some(self.mint(message).map_err(|e| {
+            self.note(format!("mint-failed:{e}"));
+            c2pa::Error::BadParam(format!("verif: token minting failed: {e}"))
+        }))
+    }
+    fn ocsp_val(&self) -> Option<Vec<u8>> {
+        self.ocsp.clone()
+    }
+}
+
+/// Builder-facing half: `direct_cose_handling`, returns the finished COSE_Sign1.
+pub struct DirectSigner(pub ScriptedSigner);
+
+impl Signer for DirectSigner {
+    fn sign(&self, data: &[u8]) -> c2pa::Result<Vec<u8>> {
+        self.0.cose(data)
+    }
+    fn alg(&self) -> SigningAlg {
+        self.0.alg()
+    }
+    fn certs(&self) -> c2pa::Result<Vec<Vec<u8>>> {
+        self.0.certs()
+    }
+    fn reserve_size(&self) -> usize {
+        self.0.reserve_size()
+    }
+    fn direct_cose_handling(&self) -> bool {
+        true
+    }
+}
+
+pub fn settings_doc(case: &Value, signing: bool) -> String {
+    let mut verify = json!({"ocsp_fetch": false, "remote_manifest_fetch": false});
+    if signing {
+        verify["verify_after_sign"] = json!(false);
+    }
+    if let Some(b) = case["verify_timestamp_trust"].as_bool() {
+        verify["verify_timestamp_trust"] = json!(b);
+    }
+    if let Some(b) = case["verify_trust"].as_bool() {
+        verify["verify_trust"] = json!(b);
+    }
+    let mut doc = json!({"verify": verify});
+    if let Some(a) = case["anchors"].as_str() {
+        doc["trust"] = json!({"user_anchors": a});
+    }
+    if let Some(b) = case["override"].as_bool() {
+        doc["builder"] = json!({"certificate_status_should_override": b});
+    }
+    // free-form additions (top-level sections replace the ones above)
+    let extra = &case[if signing { "sign_settings" } else { "read_settings" }];
+    if let Some(m) = extra.as_object() {
+        for (k, v) in m {
+            doc[k.as_str()] = v.clone();
+        }
+    }
+    doc.to_string()
+}
+
+/// The scripted (direct-COSE) signer described by `case` (cred, token, ocsp, claim_v, reserve).
+pub fn signer_of(case: &Value) -> Result<DirectSigner, Value> {
+    let v2 = case["claim_v"].as_u64().unwrap_or(2) != 1;
+    let ocsp = case["ocsp"].as_str().map(|h| hex::decode(h).expect("ocsp hex"));
+    match ScriptedSigner::new(&case["cred"], case["token"].clone(), ocsp, v2) {
+        Ok(mut s) => {
+            if let Some(n) = case["reserve"].as_u64() {
+                s.reserve = n as usize;
+            }
+            Ok(DirectSigner(s))
+        }
+        Err(e) => Err(json!({"r": "err", "stage": "signer", "kind": err_class(&e), "detail": e.to_string()})),
+    }
+}
+
+pub fn definition_of(case: &Value, title: &str) -> Value {
+    let v2 = case["claim_v"].as_u64().unwrap_or(2) != 1;
+    let mut def: Value = serde_json::from_str(&e2e::minimal_manifest(title)).expect("def");
+    if !v2 {
+        def["claim_version"] = json!(1);
+        def["claim_generator_info"] = json!([{"name": "verif-harness", "version": "0.1"}]);
+        def["assertions"] = json!([{"label": "c2pa.actions", "data": {"actions": [{"action": "c2pa.created"}]}}]);
+    }
+    def
+}
+
+pub fn seen_of(signer: &DirectSigner) -> Vec<String> {
+    signer.0.seen.lock().map(|g| g.clone()).unwrap_or_default()
+}
+
+pub fn now_secs() -> u64 {
+    std::time::SystemTime::now().duration_since(std::time::UNIX_EPOCH).map(|d| d.as_secs()).unwrap_or(0)
+}
+
+/// Sign the fixture of the case with its scripted signer; Err = the JSON error report.
+pub fn sign_asset(case: &Value, title: &str) -> Result<(String, Vec<u8>, Vec<String>), Value> {
+    let signer = signer_of(case)?;
+    let def = definition_of(case, title);
+    let fmt = case["fmt"].as_str().unwrap_or("image/png").to_string();
+    let src = e2e::fixture(case["fixture"].as_str().unwrap_or("libpng-test.png"));
+    match e2e::sign(e2e::context(Some(&settings_doc(case, true))), &def.to_string(), &fmt, &src, &signer) {
+        Ok(b) => {
+            if let Some(p) = case["dump"].as_str() {
+                let _ = std::fs::write(p, &b);
+            }
+            Ok((fmt, b, seen_of(&signer)))
+        }
+        Err(e) => Err(json!({"r": "err", "stage": "sign", "kind": err_class(&e), "detail": e.to_string().chars().take(200).collect::<String>(),
+                             "seen": seen_of(&signer)})),
+    }
+}
+
+/// Report of a read: e2e::report + signature info of the active manifest.
+pub fn read_report(case: &Value, ctx: c2pa::Context, fmt: &str, bytes: &[u8]) -> Value {
+    match e2e::read(ctx, fmt, bytes) {
+        Ok(reader) => {
+            let mut rep = e2e::report(&reader);
+            let si = reader.active_manifest().and_then(|m| m.signature_info());
+            rep["r"] = json!("ok");
+            rep["sig_time"] = json!(si.and_then(|s| s.time.clone()));
+            rep["revocation_status"] = json!(si.and_then(|s| s.revocation_status));
+            rep["now"] = json!(now_secs());
+            if case["debug"].as_bool().unwrap_or(false) {
+                rep["debug"] = serde_json::to_value(reader.validation_results()).unwrap_or(Value::Null);
+            }
+            rep
+        }
+        Err(e) => json!({"r": "err", "stage": "read", "kind": err_class(&e), "detail": e.to_string().chars().take(200).collect::<String>(), "now": now_secs()}),
+    }
+}
+
+/// Sign libpng-test.png with the scripted signer of the case and read it back; shared with C37.
+pub fn sign_and_read(case: &Value, title: &str) -> Value {
+    let (fmt, signed, seen) = match sign_asset(case, title) {
+        Ok(x) => x,
+        Err(e) => return e,
+    };
+    let mut rep = read_report(case, e2e::context(Some(&settings_doc(case, false))), &fmt, &signed);
+    rep["seen"] = json!(seen);
+    rep
+}
+
+pub fn run(case: &Value) -> Value {
+    sign_and_read(case, "c36")
 }
